@@ -60,6 +60,9 @@
 #ifndef W_MIXINS
 #define W_MIXINS 0
 #endif
+#ifndef W_MOVEONLY
+#define W_MOVEONLY 0      // 1: the argument type is move-only (prototype const Payload &, no peekEvent)
+#endif
 #ifndef W_FILTER
 #define W_FILTER 0
 #endif
@@ -85,9 +88,14 @@ struct Payload
 	int uid, v, key;
 	Payload() : uid(0), v(0), key(0) { ++g_livePayload; regAdd(this); }
 	Payload(int uid, int v, int key) : uid(uid), v(v), key(key) { ++g_livePayload; regAdd(this); }
+#if W_MOVEONLY == 1
+	Payload(const Payload &) = delete;
+	Payload & operator = (const Payload &) = delete;
+#else
 	Payload(const Payload & o) : uid(o.uid), v(o.v), key(o.key) { regUse(&o); copyFaultPoint(); ++g_livePayload; regAdd(this); }
-	Payload(Payload && o) : uid(o.uid), v(o.v), key(o.key) { regUse(&o); copyFaultPoint(); o.uid = -1; o.v = -1000; o.key = 9; ++g_livePayload; regAdd(this); }
 	Payload & operator = (const Payload & o) { regUse(&o); regUse(this); copyFaultPoint(); uid = o.uid; v = o.v; key = o.key; return *this; }
+#endif
+	Payload(Payload && o) : uid(o.uid), v(o.v), key(o.key) { regUse(&o); copyFaultPoint(); o.uid = -1; o.v = -1000; o.key = 9; ++g_livePayload; regAdd(this); }
 	Payload & operator = (Payload && o) { regUse(&o); regUse(this); copyFaultPoint(); uid = o.uid; v = o.v; key = o.key; if(&o != this) { o.uid = -1; o.v = -1000; o.key = 9; } return *this; }
 	~Payload() { regDel(this); --g_livePayload; }
 };
@@ -439,7 +447,11 @@ static void enqueue(int e, int v)
 		q->enqueue(p);
 #else
 		Key k = callKey(e);
+#if W_MOVEONLY == 1
+		q->enqueue(k, std::move(p));
+#else
 		q->enqueue(k, p);
+#endif
 #endif
 	}
 	else {
@@ -475,7 +487,12 @@ static void peekOrTake(bool take)
 	int u = 0, v = 0, e = 0; bool r;
 	{
 		Q::QueuedEvent qe;
+#if W_MOVEONLY == 1
+		if(! take) { std::fprintf(stderr, "unknown op pk (move-only arguments)\n"); std::exit(2); }
+		r = q->takeEvent(&qe);
+#else
 		r = take ? q->takeEvent(&qe) : q->peekEvent(&qe);
+#endif
 		if(r) { u = payloadOf(qe).uid; v = payloadOf(qe).v; e = keyToInt(qe.event); }
 	}
 	evx(take ? "tk" : "pk", e, v, 0, r ? 1 : 0, u);
@@ -614,7 +631,9 @@ static void epilogue()
 #if W_OBJ == 1
 	if(! g_noDrain) {
 		{ bool r = q->emptyQueue(); evx("eq", 0, 0, 0, r ? 1 : 0, 0); }
+#if W_MOVEONLY == 0
 		peekOrTake(false);
+#endif
 		process(2);
 		process(1);
 		{ bool r = q->emptyQueue(); evx("eq", 0, 0, 0, r ? 1 : 0, 0); }
